@@ -57,16 +57,18 @@ def canon_inc(F, e):
 
 class Ctx:
     """what is known about one function's inputs"""
-    __slots__ = ('params', 'elems', 'seen')
+    __slots__ = ('params', 'elems', 'seen', 'fields')
 
     def __init__(self):
         self.params = {}     # param name -> V
         self.elems = {}      # param name -> V   (element invariant of the memory a pointer parameter designates)
+        self.fields = None   # (record, field, elem) -> V : set-up fields as they stand at the call sites (unpackers only)
         self.seen = False
 
     def key(self):
         return (tuple(sorted((k, vkey(v)) for k, v in self.params.items())),
-                tuple(sorted((k, vkey(v)) for k, v in self.elems.items())))
+                tuple(sorted((k, vkey(v)) for k, v in self.elems.items())),
+                tuple(sorted((str(k), vkey(v)) for k, v in (self.fields or {}).items())))
 
 
 class FnResult:
@@ -75,6 +77,7 @@ class FnResult:
     def __init__(self):
         self.calls = {}        # callee key -> list of per-parameter V (joined over sites)  +  elems
         self.call_elems = {}
+        self.call_fields = {}  # callee (an unpacker) -> set-up field values at the call sites
         self.ret = None
         self.ok_fields = {}    # mk -> V at success returns
         self.any_fields = {}   # mk -> V at all returns and at calls
@@ -211,7 +214,22 @@ class Driver:
         if ctx is None or not ctx.seen:
             R.unreached = True
             return key, R
+        A = self.make_analyzer(key)
+        inv = A.field_inv
+        S = k4obs.Sites()
+        A.observers.append(S.observer)
+        callobs = {}
+        return self._analyse_rest(key, F, R, A, S, callobs, t0)
+
+    def make_analyzer(self, key, **kw):
+        """the K4 analyzer for one function exactly as the driver runs it (invariants, calling context, callee summaries)"""
+        P = self.P
+        F = P.fn[key]
+        ctx = self.ctx.get(key) or Ctx()
         inv = self.field_inv_for(key)
+        if ctx.fields:
+            # a header unpacker called from another one sees the fields validated earlier in the same header
+            inv.update(ctx.fields)
         pinit = dict(ctx.params)
         hooks = absint.Hooks()
         hooks.on_call = lambda A, env, e, av: self.on_call(A, env, e, av, inv)
@@ -240,16 +258,18 @@ class Driver:
         if ez:
             ezp = ez(F)
         A = absint.Analyzer(P, F, hooks=hooks, field_inv=inv, param_init=pinit, uninit_summaries=True,
-                            entry_zero=ezp, widen_delay=self.widen_delay.get(key, 2))
+                            entry_zero=ezp, widen_delay=self.widen_delay.get(key, 2), **kw)
         A.param_elems = {}
         for p in F.params:
             ev = ctx.elems.get(p['name'])
             if ev is not None:
                 A.param_elems[f'v{p["id"]}'] = ev
         A.sumq = self.sumq
-        S = k4obs.Sites()
-        A.observers.append(S.observer)
-        callobs = {}
+        return A
+
+    def _analyse_rest(self, key, F, R, A, S, callobs, t0):
+        P = self.P
+        inv = A.field_inv
 
         def call_observer(A_, env, e, v):
             nd = A_.ex[e]
@@ -287,6 +307,11 @@ class Driver:
                                 elif rp in A_.param_elems:
                                     ev = A_.param_elems[rp]
                     elems.append(ev)
+                if t in self.unpackers:
+                    fl = {}
+                    self._collect(A_, env, fl, self.setup_records, stored_only=False)
+                    pf = R.call_fields.get(t)
+                    R.call_fields[t] = fl if pf is None else {m: join(pf[m], fl[m]) for m in pf if m in fl}
                 prev = callobs.get(t)
                 if prev is None:
                     callobs[t] = [vals, elems, [e is not None] * 0]
@@ -379,7 +404,7 @@ class Driver:
             F._stored_fields = c
         return c
 
-    def _collect(self, A, env, out, records):
+    def _collect(self, A, env, out, records, stored_only=True):
         sf = self.stored_fields(A.F)
         for k, x in env.items():
             if not isinstance(k, str) or k.startswith('$') or not isinstance(x, V):
@@ -388,7 +413,7 @@ class Driver:
             if not info or not info[0]:
                 continue
             mk = info[0]
-            if mk[0] not in records or (mk[0], mk[1]) not in sf:
+            if mk[0] not in records or (stored_only and (mk[0], mk[1]) not in sf):
                 continue
             if not int_type_range_of_field(A.P, mk):
                 continue
@@ -476,6 +501,8 @@ class Driver:
                     for p_, v in zip(G.params, R.call_elems[t]):
                         if v is not None:
                             c.elems[p_['name']] = v
+                    if t in R.call_fields:
+                        c.fields = dict(R.call_fields[t])
                 elif t in self.roots:
                     # an API function that is also called internally: its parameters stay unconstrained
                     continue
@@ -496,8 +523,32 @@ class Driver:
                             del c.elems[p_['name']]
                         else:
                             c.elems[p_['name']] = join(old, v)
+                    if c.fields is not None:
+                        fl = R.call_fields.get(t) or {}
+                        c.fields = {m: join(c.fields[m], fl[m]) for m in c.fields if m in fl}
         for mk, v in inv_ok.items():
             inv_any[mk] = join(join(inv_any.get(mk), v), K(0))
+        # a field of a tracked record that no analysed function stores to keeps the value its allocation gave it: 0
+        # (all these records are calloc'ed or memset by their init functions; the encoder-only fields, e.g. psys)
+        written = set()
+        for k, c in ctx.items():
+            if c.seen or (k in self.ctx and self.ctx[k].seen):
+                written |= self.stored_fields(P.fn[k])
+        for rec in self.setup_records | self.state_records:
+            r = P.records.get(rec)
+            if not r:
+                continue
+            for f in r['fields']:
+                if (rec, f['name']) in written:
+                    continue
+                for el in (False, True):
+                    mk = (rec, f['name'], el)
+                    if int_type_range_of_field(P, mk) and (el == bool(f.get('extent')) or f['t'].strip().endswith('*')):
+                        if rec in self.setup_records:
+                            inv_ok.setdefault(mk, K(0))
+                            inv_any.setdefault(mk, K(0))
+                        else:
+                            inv_state.setdefault(mk, K(0))
         # functions seen in an earlier round stay in the analysed set
         for k, c in self.ctx.items():
             if c.seen and k not in ctx:
@@ -540,3 +591,40 @@ _DRV = None
 
 def _work(key):
     return _DRV.analyse(key)
+
+
+# ----------------------------------------------------------------------------------------------------
+# The decode pipeline instance (C02; reused by C16/C11 where they need decoder value ranges)
+def decode_driver(P, verbose=False):
+    """Driver over everything the abstract execution of the codec.h decode API reaches.  Cached on P."""
+    D = getattr(P, '_decode_driver', None)
+    if D is not None:
+        return D
+    from rules import common
+    roots = [P.key(P.need(n)) for n in common.decode_api(P)]
+    slot_unp = sorted({P.key(P.get(f)) for (r, fl), fs in P.slots.items() if fl == 'unpack' for f in fs if P.get(f) is not None})
+    if len(slot_unp) < 4:
+        raise AnalysisBroken(f'backend unpack slots not found ({slot_unp})')
+    unp = [P.key(P.need(n)) for n in ('_vorbis_unpack_info', 'vorbis_staticbook_unpack', '_vorbis_unpack_books',
+                                      '_vorbis_unpack_comment')] + slot_unp
+    free_info = sorted({P.key(P.get(f)) for (r, fl), fs in P.slots.items() if fl == 'free_info' for f in fs if P.get(f) is not None})
+    ungated = [P.key(P.need(n)) for n in ('vorbis_info_clear', 'vorbis_comment_clear', 'vorbis_staticbook_destroy',
+                                          'vorbis_info_init', 'vorbis_comment_init', 'vorbis_synthesis_headerin',
+                                          'vorbis_synthesis_idheader', 'vorbis_info_blocksize')] + free_info
+
+    def ez_books(F):
+        # codec_setup_info is zero-filled by vorbis_info_init (calloc) and vorbis_info_clear (memset), and the set-up header
+        # is accepted only once (ci->books>0 is refused): the arrays _vorbis_unpack_books fills start out zero
+        vid = F.params[0]['id']
+        return [f'v{vid}->codec_setup->{f["name"]}[' for f in P.record('codec_setup_info')['fields'] if f.get('extent')]
+    root_params = {
+        # documented API precondition (vorbis_info_blocksize(vi,zo): "zo" selects the short (0) or long (1) block)
+        'vorbis_info_blocksize': {'zo': V(0, 1)},
+    }
+    D = Driver(P, roots, unp, ungated=ungated, entry_zero={'_vorbis_unpack_books': ez_books}, root_params=root_params,
+               verbose=verbose)
+    D.run()
+    D.unp = unp
+    D.ungated_list = ungated
+    P._decode_driver = D
+    return D
